@@ -10,7 +10,10 @@ OVERLAY = {PKG + "/zz_c03_verif_test.go": "harness/overlay/rcmgr/c03_verif_test.
 KIND = {0: "system", 1: "transient", 2: "allowlistedSystem", 3: "allowlistedTransient", 4: "service", 5: "protocol",
         6: "peer", 7: "service.peer", 8: "protocol.peer", 9: "conn", 10: "stream", 11: "span"}
 CLAUSE = {1: "usage!=sum-of-holders", 2: "negative-counter", 3: "over-limit", 4: "over-priority-threshold",
-          5: "illegal-answer", 6: "subnet-cap", 7: "unjustified-limit-refusal"}
+          5: "illegal-answer", 6: "subnet-cap", 7: "unjustified-limit-refusal",
+          11: "mid-flight sample: negative counter", 12: "mid-flight sample: counter above the scope's limit",
+          13: "mid-flight sample: usage outside [charges held through the sample, + charges of operations in flight]",
+          14: "quiescence: usage != sum of the holders charged to the scope"}
 OPN = {1: "OpenConnection", 2: "SetPeer", 3: "OpenStream", 4: "SetProtocol", 5: "SetService", 6: "ReserveMemory",
        7: "ReleaseMemory", 8: "BeginSpan", 9: "Done", 10: "gc"}
 OPLEN = {1: 10, 2: 3, 3: 4, 4: 3, 5: 3, 6: 6, 7: 5, 8: 5, 9: 4, 10: 1}
@@ -61,7 +64,49 @@ def fmt_op(o):
     return "gc()"
 
 
+def split_conc(t):
+    """case kind 5 -> (samples [(K, a, lim, obs, [(lo, hi)])], holders [(id, own, edges)], final [(id, K, a, obs)])"""
+    try:
+        p = 1
+        n = t[p]; p += 1
+        smp = []
+        for _ in range(n):
+            k, a = t[p], t[p + 1]; lim = t[p + 2:p + 10]; obs = t[p + 10:p + 16]; m = t[p + 16]; p += 17
+            parts = [(t[p + 12 * i:p + 12 * i + 6], t[p + 12 * i + 6:p + 12 * i + 12]) for i in range(m)]; p += 12 * m
+            smp.append((k, a, lim, obs, parts))
+        n = t[p]; p += 1
+        hs = []
+        for _ in range(n):
+            hid, own, ne = t[p], t[p + 1:p + 7], t[p + 7]; p += 8
+            hs.append((hid, own, t[p:p + ne])); p += ne
+        n = t[p]; p += 1
+        fin = [(t[p + 9 * i], t[p + 9 * i + 1], t[p + 9 * i + 2], t[p + 9 * i + 3:p + 9 * i + 9]) for i in range(n)]
+        return smp, hs, fin
+    except IndexError:
+        return None
+
+
+def conc_scope(k, a):
+    if k == 8:
+        return "protocol#%d.peer#%d" % (a // 16, a % 16)
+    if k == 7:
+        return "service#0.peer#%d" % a
+    return "%s%s" % (KIND.get(k, "?"), ("#%d" % a) if k >= 4 else "")
+
+
 def describe(t):
+    if t and t[0] == 5:
+        sp = split_conc(t)
+        if not sp:
+            return {"raw": t[:120]}
+        smp, hs, fin = sp
+        vsum = lambda vs: [sum(v[i] for v in vs) for i in range(6)]
+        return {"kind": "concurrent run with mid-flight samples (counters: mem sin sout cin cout fd)",
+                "samples": ["%s observed %s limit %s held-through-sample %s possibly-held %s" %
+                            (conc_scope(k, a), obs, lim, vsum([lo for lo, _ in parts]), vsum([hi for _, hi in parts]))
+                            for k, a, lim, obs, parts in smp][:40],
+                "holders_at_quiescence": ["#%d holds %s charged to scopes %s" % h for h in hs][:40],
+                "stat_at_quiescence": ["%s: %s" % (conc_scope(k, a) if k < 9 else "%s#%d" % (KIND[k], a), obs) for _, k, a, obs in fin][:60]}
     if t and t[0] == 4:
         return {"kind": "concurrent-quiescence", "want": t[1:7], "got": t[7:13], "sampled_limit_violations": t[13], "after_drain": t[14:]}
     sp = split_case(t)
@@ -77,7 +122,7 @@ def nontrivial(line):
     # non-trivial: at least one operation was refused for a limit (class 1) or the ip cap (4);
     # cheap test on the raw line: parse
     t = [int(x) for x in line.split()]
-    if t[0] == 4:
+    if t[0] in (4, 5):
         return True
     sp = split_case(t)
     return bool(sp) and any(cls in (1, 4) for _, cls, _, _ in sp[2])
@@ -86,6 +131,11 @@ def nontrivial(line):
 def key(tag, toks, d):
     """identity of a monitor failure: clause + call site + canonical shape.
     d = [902, step, clause, ...details..., -1, site]"""
+    if toks and toks[0] == 5:
+        # [902 idx clause K a ...] (monitor) / [901 idx K a ...] (model's quiescent prediction)
+        if len(d) >= 5 and d[0] == 902:
+            return "C03:concurrent-sampled:%s:%s" % (CLAUSE.get(d[2], d[2]), KIND.get(d[3], d[3]))
+        return "C03:concurrent-sampled:%s" % d[:3]
     if toks and toks[0] == 4:
         return "C03:concurrent:%s" % d[:3]
     if len(d) < 3 or d[0] != 902:
@@ -112,6 +162,10 @@ def key(tag, toks, d):
 
 
 def what(tag, toks, d):
+    if toks and toks[0] == 5:
+        if len(d) >= 5 and d[0] == 902:
+            return "concurrent run, scope %s: %s (observed / bounds: %s)" % (conc_scope(d[3], d[4]), CLAUSE.get(d[2], d[2]), d[5:23])
+        return "concurrent run: diag %s" % d[:20]
     if toks and toks[0] == 4:
         return "concurrent run: totals at quiescence differ from what the goroutines hold, or a limit was exceeded (diag %s)" % d[:16]
     sp = split_case(toks)
@@ -162,7 +216,7 @@ def replay_harness(ctx, casefile, toks):
 if __name__ == "__main__":
     ctx = Ctx("C03")
     ctx.assumptions = [
-        "theorems: every finite sequential history of the whole operation language (incl. gc and the allow-list transfer inside SetPeer) under the property's own quantifier (disciplined = config_wf, op_shape, callers_run), for the whole monitor (mon_run with every check); the concurrent clause ('from many goroutines at once') is covered by the correspondence alone: 8 goroutines on one manager, totals at quiescence == what each goroutine holds, sampled limit checks, everything zero after the drain",
+        "theorems: every finite sequential history of the whole operation language (incl. gc and the allow-list transfer inside SetPeer) under the property's own quantifier (disciplined = config_wf, op_shape, callers_run), for the whole monitor (mon_run with every check); CONCURRENT executions: theorems c03c_* over the interleaving LTS of Conc.v (holders = connections / streams over an arbitrary scope graph; atomic step = one single-lock section: one check-and-add (rc_reserve) or one release (rc_release) on one scope; operations OReserve / ORelease / ODone / OMove (SetPeer, SetProtocol, SetService, re-charge half of the allow-list transfer) / OUnlink; every schedule): usage == sum of the charges held so far incl. in-flight prefixes, within [0, limit] at every instant, quiescent exactness, a refused operation leaves no residue, and the monitor of case kind 5 accepts every trace of that model. Not in the LTS (correspondence only): span owner chains, gc, the conn limiter under concurrency, the leaf mutex (the LTS serialises the operations of one holder, as the leaf mutex does), whether the real interleavings are exactly those of the LTS (mutexes cannot be hooked without editing /repo: the harness observes Stat() from a sampler goroutine and makes every Limit getter yield inside the critical section)",
         "callers release at most what they reserved directly on that scope, priorities 0..255, outstanding memory in total < 2^63 (callers_run; with a MaxInt64 memory limit the code skips the check and int64 would wrap: DESIGN 9 item 13)",
         "limits are non-negative (config_wf); SetLimit / sticky scopes are outside the quantifier and not modelled; metrics, tracing and the connection *rate* limiter are off",
         "IP addresses and prefixes are integers with shift-compare containment (netip/net.IPNet.Contains, manet.ToIP modelled, exercised by the correspondence with real multiaddrs incl. IPv6 and IPv4-mapped IPv6: the conn limiter keys a mapped address as IPv6 in addConn and rmConn, the allow-list unmaps it)",
@@ -171,7 +225,7 @@ if __name__ == "__main__":
     standard_flow(ctx, dict(
         coq_targets=["c03/Properties.vo", "c03/Extract.vo"],
         props="c03/Properties.v",
-        spec_module="c03.Spec",
+        spec_module="c03.SpecAll",
         harness=harness, replay_harness=replay_harness, warm=warm,
         nontrivial=nontrivial,
         rule="seeded histories of 5-60 operations (OpenConnection in/out fd/no-fd with IPv4/IPv6/IPv4-mapped-IPv6/no-IP/allow-listed endpoints, plain and mapped forms of one host mixed at the caps, SetPeer, OpenStream, "
@@ -182,6 +236,12 @@ if __name__ == "__main__":
              "allow-listed pair, every service/protocol/peer scope and per-peer sub-scope, every handle) are compared with the Coq model "
              "(conform_case) and judged by the property monitor (monitor_case: usage == sum of holders, >= 0, <= limit, priority threshold, "
              "refusal changes nothing and is justified, re-parenting consistent, per-subnet cap). Concurrent runs: 8 goroutines, totals at "
-             "quiescence. A case is non-trivial when at least one operation was refused by a limit or cap.",
+             "quiescence (kind 4); 8 goroutines running OpenConnection (ordinary and allow-listed endpoints) / SetPeer (incl. the allow-list transfer) / OpenStream / "
+             "SetProtocol / SetService / ReserveMemory (holder or span) / ReleaseMemory / BeginSpan / Done on their own connections and streams under tight limits "
+             "while a sampler goroutine reads Stat() of system, transient, the allow-listed pair, every peer / protocol / service scope and per-peer sub-scope; every "
+             "Limit getter yields inside the critical section; up to 160 samples per run (all suspicious ones, then mid-flight ones) are judged by the extracted "
+             "monitor: each counter in [0, limit] and between the charges held through the sampling window and those plus the charges of the operations overlapping it; "
+             "at quiescence Stat() of every shared scope and of every holder == sum over the holders (kind 5). "
+             "A case is non-trivial when at least one operation was refused by a limit or cap.",
         describe=describe, key=key, what=what, crosscheck=40,
     ))
